@@ -81,13 +81,14 @@ TEnd == /\ HasRec /\ Rec.ev = "end" /\ pc \in {"swept", "sweep", "pre"}
         /\ (pc \in {"sweep", "pre"} => Rec.hooks_missing /\ nsteps = 0)          \* without hooks only the result clauses are checked
         /\ pc = "swept" => Rec.qD = qD                                  \* the object's charges are those of the local steps
         /\ Len(Rec.qD) = meta.L + 1
-        /\ \A b \in 1..(meta.L + 1) : Len(Rec.qD[b]) = Rec.dims[b]                                          \* C02: list lengths
+        /\ Strict => \A b \in 1..(meta.L + 1) : Len(Rec.qD[b]) = Rec.dims[b]                                \* C02: list lengths
         /\ (Strict \/ meta.op = "compress") => \A b \in 1..(meta.L + 1) : Rec.dims[b] <= Len(meta.qD0[b])     \* NoGrowth (C13 for compress)
         /\ Rec.dims[1] = 1 /\ Rec.dims[meta.L + 1] = 1
         /\ (Strict /\ meta.op = "ortho" /\ meta.pmode = meta.mode) => SameBags(Rec.qD, meta.qD0)                          \* Canon!Idempotent
-        /\ (~Rec.is_zero) => (Rec.qD[1] = meta.qD0[1] /\ Rec.qD[meta.L + 1] = meta.qD0[meta.L + 1])       \* BoundaryOK
+        /\ (Strict /\ ~Rec.is_zero) => (Rec.qD[1] = meta.qD0[1] /\ Rec.qD[meta.L + 1] = meta.qD0[meta.L + 1])    \* BoundaryOK (C02)
         /\ (pc = "swept" /\ zero) => Rec.is_zero                                                        \* dummy branch => zero state
-        /\ Rec.nrm_nonneg /\ Rec.nrm_ok /\ Rec.state_ok /\ Rec.unit_ok /\ Rec.forms_ok /\ Rec.sparse_ok /\ Rec.types_ok
+        /\ Rec.nrm_nonneg /\ Rec.nrm_ok /\ Rec.state_ok /\ Rec.unit_ok /\ Rec.forms_ok
+        /\ Strict => (Rec.sparse_ok /\ Rec.types_ok)                                                   \* C02
         /\ Rec.neighbour_ok
         /\ meta.op = "compress" => (Rec.scale_ok /\ Rec.err_ok)
         /\ ExactOK
@@ -100,7 +101,8 @@ TFirstBond == /\ HasRec /\ Rec.ev = "firstbond" /\ pc = "done"
 
 (* C13 / C03: MPS.from_vector *)
 TFromVector == /\ HasRec /\ Rec.ev = "from_vector" /\ pc = "none"
-               /\ Rec.err_ok /\ Rec.types_ok /\ Rec.shapes_ok /\ Rec.exact_ok /\ Rec.input_unchanged
+               /\ Rec.err_ok /\ Rec.shapes_ok /\ Rec.exact_ok
+               /\ Strict => (Rec.types_ok /\ Rec.input_unchanged)                  \* C02 / C19
                /\ pc' = "done" /\ UNCHANGED <<qD, pos, zero, meta, nsteps>> /\ Advance
 
 TPoke == /\ HasRec /\ Rec.ev = "poke" /\ pc = "done" /\ meta.L > 0
@@ -122,24 +124,26 @@ Diagnose ==
     ELSE IF Rec.ev = "end" THEN
         (IF pc \in {"sweep", "pre"} /\ ~(Rec.hooks_missing /\ nsteps = 0) THEN "spec: call returned before its sweep over the sites was complete"
          ELSE IF pc = "swept" /\ Rec.qD # qD THEN "spec: bond charges of the object differ from those of the local factorizations"
-         ELSE IF ~(\A b \in 1..(meta.L + 1) : Len(Rec.qD[b]) = Rec.dims[b]) THEN "length of a charge list differs from the bond dimension"
+         ELSE IF ~(\A b \in 1..(meta.L + 1) : Len(Rec.qD[b]) = Rec.dims[b]) THEN "spec: (clause of C02) length of a charge list differs from the bond dimension"
          ELSE IF ~(\A b \in 1..(meta.L + 1) : Rec.dims[b] <= Len(meta.qD0[b])) THEN (IF meta.op = "compress" THEN "a bond dimension grew" ELSE "spec: a bond dimension grew")
          ELSE IF meta.op = "ortho" /\ meta.pmode = meta.mode /\ ~SameBags(Rec.qD, meta.qD0) THEN "spec: repeated sweep in the same direction changed the bond charges (not a fixed point)"
-         ELSE IF ~Rec.is_zero /\ ~(Rec.qD[1] = meta.qD0[1] /\ Rec.qD[meta.L + 1] = meta.qD0[meta.L + 1]) THEN "total charge of a non-zero state changed"
+         ELSE IF ~Rec.is_zero /\ ~(Rec.qD[1] = meta.qD0[1] /\ Rec.qD[meta.L + 1] = meta.qD0[meta.L + 1]) THEN "spec: (clause of C02) total charge of a non-zero state changed"
          ELSE IF ~Rec.nrm_nonneg THEN "returned factor negative"
          ELSE IF ~Rec.nrm_ok THEN "returned factor is not the norm of the original"
          ELSE IF ~Rec.state_ok THEN "factor * new state differs from the original state"
          ELSE IF ~Rec.unit_ok THEN "result does not have unit norm"
          ELSE IF ~Rec.forms_ok THEN "a site tensor is not an isometry in the chosen direction"
-         ELSE IF ~Rec.sparse_ok THEN "a tensor is not block sparse under the final charges"
+         ELSE IF ~Rec.sparse_ok THEN "spec: (clause of C02) a tensor is not block sparse under the final charges"
          ELSE IF ~Rec.neighbour_ok THEN "a bond is larger than the neighbouring dimensions allow"
-         ELSE IF ~Rec.types_ok THEN "container / dtype clause"
+         ELSE IF ~Rec.types_ok THEN "spec: (clause of C02) container / dtype clause"
          ELSE IF meta.op = "compress" /\ ~(Rec.scale_ok /\ Rec.err_ok) THEN "compress: scale outside [sqrt(1-L tol), 1] or error identity violated"
          ELSE IF ~ExactOK THEN "exact instance: nrm^2 # ||v||^2 or nrm * new # old"
          ELSE "spec: zero-state bookkeeping")
     ELSE IF Rec.ev = "begin" THEN "a later call does not start from the charges / shape the previous call left behind"
     ELSE IF Rec.ev = "firstbond" THEN "first truncated bond does not keep the Schmidt values prescribed by the tolerance rule"
-    ELSE IF Rec.ev = "from_vector" THEN "from_vector: error bound / types / shapes / exactness at tol = 0"
+    ELSE IF Rec.ev = "from_vector" THEN
+        (IF ~(Rec.err_ok /\ Rec.shapes_ok /\ Rec.exact_ok) THEN "from_vector: error bound / shapes / exactness at tol = 0"
+         ELSE "spec: (clause of C02 / C19) from_vector: container types of the charge lists / input vector modified")
     ELSE "unexpected event"
 
 TReject == /\ tid <= Len(Tr)
